@@ -745,6 +745,9 @@ def parse_answer(ans):
 # lock probes (real threads; only with the default PicklableLock)
 # ---------------------------------------------------------------------------------------------
 
+PROBE_WAIT = 60.0     # generous: a loaded machine must not turn into a verdict; a real deadlock ends as exit 2
+
+
 def _in_thread(fn, wait):
     res = {}
 
@@ -1065,10 +1068,10 @@ def lock_probes(case, A, C, K, p, fail):
     la, lc, lk = first_lock(A), first_lock(C), first_lock(K)
     # a lock held on the original never blocks the copy …
     with la:
-        th, res = _in_thread(probe_event(C), 5.0)
+        th, res = _in_thread(probe_event(C), PROBE_WAIT)
         if th.is_alive():
             fail('monitor', 'held-lock-crosses', 'prefix %d: an event on the copy blocks while the ORIGINAL\'s lock is held' % p)
-    th.join(5.0)
+    th.join(PROBE_WAIT)
     try:
         probe_event(K)()
     except Exception:     # noqa: BLE001
@@ -1076,17 +1079,17 @@ def lock_probes(case, A, C, K, p, fail):
     # … nor the other way round (a read-only locked call on the original)
     with lc:
         first = next(iter(A.machine.states))
-        th, res = _in_thread(lambda: A.machine.get_state(first), 5.0)
+        th, res = _in_thread(lambda: A.machine.get_state(first), PROBE_WAIT)
         if th.is_alive():
             fail('monitor', 'held-lock-crosses', 'prefix %d: a call on the original blocks while the COPY\'s lock is held' % p)
-    th.join(5.0)
+    th.join(PROBE_WAIT)
     # … while each machine still honours its own lock, like the un-pickled control does
     blocked = {}
     for nm, rig, lock in (('control', K, lk), ('copy', C, lc)):
         with lock:
             th, res = _in_thread(probe_event(rig), 0.12)
             blocked[nm] = th.is_alive()
-        th.join(5.0)
+        th.join(PROBE_WAIT)
         if th.is_alive():
             raise common.MachineryError('probe thread did not finish after the lock was released')
     if blocked['control'] and not blocked['copy']:
@@ -1290,7 +1293,7 @@ class C15(runner.Check):
                 'the theorems speak about an abstract transition relation; the engine itself is not re-proved equivariant']
 
     def budget(self, tier):
-        return (16, 8) if tier == "quick" else (32, 40)
+        return (16, 5) if tier == "quick" else (32, 40)
 
     def explore(self, tier, seed):
         workers, n = self.budget(tier)
@@ -1310,7 +1313,9 @@ class C15(runner.Check):
                 seen[key] = f
         out = []
         for f in list(seen.values())[:8]:
-            if f.kind == 'monitor':
+            if f.kind == 'monitor' and f.signature is not None:
+                out.append(f)            # a known finding: one representative, not shrunk
+            elif f.kind == 'monitor':
                 clause = f.what
                 small = runner.shrink(f.case, lambda c: same_failure(c, clause), shrink_steps, budget=150)
                 res = run_case(small, want_requests=False)
